@@ -96,10 +96,15 @@ def xmilePrec : XPrec where
 /-- Decidable agreement of an XMILE table with CPython's (A1 `bp`/`ldem`/`rbp`, unary minus 7, `not` 3)
 under the token map: every level is mapped monotonically (a node is at least as tight in Python as
 in XMILE, every operand position demands at most what XMILE demands) with the same associativity. -/
-def precAgree (P : XPrec) : Bool :=
-  allOps.all (fun k => decide (Py.bp (P.img k) ≥ P.bp k) && decide (P.ldem k ≥ Py.ldem (P.img k))
-    && decide (P.rdem k ≥ Py.rbp (P.img k)))
-  && decide (P.negLvl ≤ 7) && decide (P.negDem ≥ 7) && decide (P.notDem ≥ 3)
+def opAgree (P : XPrec) (k : XOp) : Bool :=
+  decide (Py.bp (P.img k) ≥ P.bp k) && decide (P.ldem k ≥ Py.ldem (P.img k))
+    && decide (P.rdem k ≥ Py.rbp (P.img k))
+
+/-- unary minus is printed with the `-` of subtraction (A1: `neg` prints `op .sub`) -/
+def unaryAgree (P : XPrec) : Bool :=
+  decide (P.img .sub = .sub) && decide (P.negLvl ≤ 7) && decide (P.negDem ≥ 7) && decide (P.notDem ≥ 3)
+
+def precAgree (P : XPrec) : Bool := allOps.all (opAgree P) && unaryAgree P
 
 def xlvl (P : XPrec) : X → Nat
   | .bin k _ _ => P.bp k
@@ -112,14 +117,13 @@ def xlvl (P : XPrec) : X → Nat
 structure Cfg where
   opT : XOp → List Tok        -- `operators[k]` applied to placeholders
   notT : Tmpl                 -- `operators["not"]`
-  fns : Table                 -- `operators["()"]` as "()/1", `builtins[f]` per arity as "f/n" ("if/3", …)
+  fns : Table                 -- `operators["()"]` as ("()",1), `builtins[f]` per arity n as (f,n): ("if",3), …
   identT : List Tok           -- rendering of identifier `probe`
   identInitT : List Tok       -- rendering of `INIT(probe)` without the template's own tokens
   unknownBuiltinRaises : Bool -- an unknown function name raises (false: the text "0" is emitted)
 
-def fnKey (f : String) (n : Nat) : String := f ++ "/" ++ toString n
-
-def findFn (c : Cfg) (f : String) (n : Nat) : Option Tmpl := c.fns.find? (fun t => t.cls == fnKey f n)
+def findFn (c : Cfg) (f : String) (n : Nat) : Option Tmpl :=
+  c.fns.find? (fun t => t.cls == f && t.arity == n)
 
 /-- text for a function; an unknown one gets the `"0"` of the pinned tree -/
 def fnToks (c : Cfg) (f : String) (n : Nat) : List Tok := match findFn c f n with
